@@ -471,6 +471,10 @@ def cases(tier, seed):
                         for n in (1, 2):
                             for desc in (True, False):
                                 out.append(("SelectMomentum", (h, c), [("SelectMomentum", (n, lb, lag, desc, False))], pr))
+                        if lag in (0, 1) and lb in (2, 3, 5):
+                            # all or nothing: fewer rankable names than asked for leaves nothing selected
+                            for n in (2, 3):
+                                out.append(("SelectMomentum", (h, c), [("SelectMomentum", (n, lb, lag, True, True))], pr))
     # signals
     for kind in ("mixed", "none", "all", "sparse", "shifted", "holes"):
         for h in hists_q:
@@ -614,7 +618,7 @@ def run(ctx):
         ctx.add(states=tot, transitions=tot, traces_validated_against_impl=tot, evaluations=tot)
         ctx.nontrivial_count += tot
         ctx.extra.setdefault("executed", []).append({"build": kind, "judged": tot, "outside_documented_domain": sk})
-    named = [(k, v, lag) for k in ("stat", "where") for v in ("aligned", "sparse", "late_start", "longer") for lag in ((0, 1, 2, 3) if k == "stat" else (0,))]
+    named = [(k, v, lag) for k in ("stat", "where") for v in ("aligned", "sparse", "late_start", "longer", "intraday") for lag in ((0, 1, 2, 3) if k == "stat" else (0,))]
     for kind in kinds:
         for item, (n, viols) in ctx.run(kind, MOD, "named_case", named, chunksize=1):
             ctx.add(states=1, transitions=n, traces_validated_against_impl=n, evaluations=n)
